@@ -239,7 +239,12 @@ impl<'p, 'a> Evaluator<'a, 'p> {
                                 }
                             }
                             PendingThunk::Call { func, args } => {
-                                self.execute_call(&func.view(), args);
+                                let func = func.view();
+                                let (_, func_env) = self.get_func_info(&func);
+                                let args: Vec<_> = args.iter().map(Gc::view).collect();
+                                let args =
+                                    self.check_call_thunk_args(&func.params, &args, &[], func_env)?;
+                                self.execute_call(&func, args);
                             }
                         }
                     }
